@@ -65,7 +65,7 @@ func (Engine) Generate(r *core.Rng, property, tier string) *core.Plan {
 			}
 		}
 	}
-	if property == "C30" || property == "C12" && r.Bool(0.25) {
+	if property == "C30" || (property == "C12" || property == "C07") && r.Bool(0.25) {
 		// the CRC-only DPoS era starts inside the run, so the state records a
 		// last irreversible height a few blocks later
 		// (the tracking start stays >= 7: the code computes height-6 there, and
@@ -96,7 +96,7 @@ func (Engine) Generate(r *core.Rng, property, tier string) *core.Plan {
 	}
 	switch property {
 	case "C01":
-		g.on["badtx"] = true
+		g.on["badtx"], g.on["reorder"] = true, true
 		g.bias = []int{1, 1, 2, 3, 4, 6, 7, 1} // amount modes favoured
 	case "C05":
 		g.on["badtx"] = true
@@ -356,7 +356,9 @@ func (g *gen) orphanFamily() {
 	small := func(pm, parent int, hold bool) Step {
 		b := &BlockSpec{Miner: r.Intn(10), Dt: r.Intn(300), PMode: pm, Parent: parent, Hold: hold}
 		if r.Bool(0.5) {
-			b.Txs = append(b.Txs, g.goodTx())
+			// (g.tx: Byzantine transactions too - what a block is checked for
+			// must not depend on whether it arrived before its parent)
+			b.Txs = append(b.Txs, g.tx())
 		}
 		return Step{Op: "mine", Block: b}
 	}
@@ -411,7 +413,14 @@ func (g *gen) step() {
 		return
 	}
 	if (g.prop == "C07" && r.Bool(0.45)) || (g.prop != "C07" && g.on["badblock"] && r.Bool(0.04)) {
-		g.p.Add(g.mutStep())
+		st := g.mutStep()
+		if nb := g.p.Knob("nbtime", 0); nb > 0 && r.Bool(0.35) {
+			// the block to mutate ends in an input-less transaction (a
+			// revert-to-PoW after simulated silence): duplicating IT re-spends nothing
+			g.p.Add(Step{Op: "sleep", Secs: nb + int64(r.Intn(60))})
+			st.Block.Revert = true
+		}
+		g.p.Add(st)
 		return
 	}
 	if g.poolHeavy && r.Bool(0.6) {
